@@ -175,7 +175,16 @@ func TestC14_Tx(t *testing.T) {
 		}
 
 		tags := g.List()
-		stats.Case("tx", kind+"|"+g.Sig(), nontrivial(tags), tags...)
+		var zm string
+		switch x.Type() {
+		case types.QuaiTxType:
+			zm = zeroMask(x.ChainId(), x.Nonce(), x.GasPrice(), x.Gas(), x.Value())
+		case types.ExternalTxType:
+			zm = zeroMask(x.ETXIndex(), x.Gas(), x.Value(), x.OriginatingTxHash())
+		default:
+			zm = zeroMask(x.ChainId()) + fmt.Sprintf("/%din%dout", len(x.TxIn()), len(x.TxOut()))
+		}
+		stats.Case("tx", kind+"|"+zm+"|"+g.Sig(), nontrivial(tags), tags...)
 		if stats.WantSample("tx") {
 			stats.Sample("tx", map[string]any{"kind": kind, "tags": tags, "proto": hx(b1), "hash": hx0.Hex()})
 		}
